@@ -368,7 +368,7 @@ func (c *Ctx) appendCall(x *ast.CallExpr, st *State) Val {
 
 func appendProv(p string) string {
 	// append may return the first argument's backing array (if capacity allows) or a fresh one; never the appended source
-	if p == "input" || strings.HasPrefix(p, "param") {
+	if p == "input" || strings.HasPrefix(p, "param") || strings.HasPrefix(p, "join:") {
 		return p
 	}
 	return "fresh"
@@ -743,7 +743,24 @@ func (c *Ctx) abstractCall(x *ast.CallExpr, fn *types.Func, st *State) []Val {
 		}
 	}
 	c.abstracted("call " + name)
-	return c.abstractResults(x, st)
+	res := c.abstractResults(x, st)
+	// an unverified function that receives bytes of the input may hand them back (a zero-copy view): its slice and
+	// string results carry the input's provenance
+	tainted := false
+	for _, a := range args {
+		if sv, ok := a.(SliceV); ok && (sv.Prov == "input" || sv.Prov == "mixed" || strings.HasPrefix(sv.Prov, "join:")) {
+			tainted = true
+		}
+	}
+	if tainted {
+		for i, r := range res {
+			if sv, ok := r.(SliceV); ok {
+				sv.Prov = "input"
+				res[i] = sv
+			}
+		}
+	}
+	return res
 }
 
 func (c *Ctx) abstractResults(x *ast.CallExpr, st *State) []Val {
